@@ -56,11 +56,11 @@ def run(ck):
     comps2 = [c for c in km.compositions(n2) if len(c) <= (2 if quick else 3)]
     recs += model_run(ck, "stats-2d-k3", n2, 2, 3, d2, c2, comps2, coverage=not quick)
     ck.exhaustive = True
-    if len(recs) > (170 if quick else 700):
-        recs = rng.sample(recs, 170 if quick else 700)
+    if len(recs) > (170 if quick else 400):
+        recs = rng.sample(recs, 170 if quick else 400)
     for rec in recs:
         replay(ck, em, rec, rng)
-    stored_narrow(ck, em, rng, 12 if quick else 150)
+    stored_narrow(ck, em, rng, 12 if quick else 80)
 
 
 def replay(ck, em, rec, rng):
